@@ -295,6 +295,11 @@ def oracle_hrefresh(case, impl):
             return "%r was removed from the hosts file but is still answered locally after a successful refresh" % n
     return None
 
+def _oracle_slow(case, impl):
+    from props.c15 import oracle_slowrefresh
+    return oracle_slowrefresh(case, impl) if case.startswith("slowhosts") else None
+
+
 SPEC = dict(
         lean_module="NV.Props.C12",
         level_text="Kernel-checked theorems about an executable model of ptrIP / isPrivateReverse / hostsResolve / Proxy.Resolve with the "
@@ -309,7 +314,9 @@ SPEC = dict(
                    "fail and the query falls through: kept as hypothesis).",
         areas=[dict(name="local", n_quick=40000, n_thorough=1200000, shards_thorough=8, oracle=oracle_local,
                     nontrivial=lambda c, i: c.startswith("resolve") and " up=0 " in (i + " ") or (c.startswith("ptrip") and "ip=none" not in i)),
-               dict(name="hrefresh", n_quick=150, n_thorough=3000, shards_thorough=4, oracle=oracle_hrefresh)],
+               dict(name="hrefresh", n_quick=150, n_thorough=3000, shards_thorough=4, oracle=oracle_hrefresh),
+               # a slow (first) load of the hosts file overlapped by a second query for a listed name: shared with C15
+               dict(name="slowrefresh", n_quick=9, n_thorough=60, oracle=_oracle_slow, timeout=300)],
         trusted=COMMON_TRUST + ["strconv.ParseUint, net.IP.String, net.ParseIP, strings.ToLower as described in NV/Model/Local.lean (exercised by the local area)",
                                 "hosts-file syntax (comments, field splitting, address parsing) is C18's subject; C12 takes the accepted lines"],
         assumptions=["query names are ASCII (strings.ToLower re-encodes bytes >= 0x80)",
